@@ -377,6 +377,7 @@ def rules(report, index):
     SHALLOW = ('list', 'dict', 'set', 'tuple', 'copy', 'sorted',
                'deque', 'OrderedDict')
     nshared = 0
+    all_sites = [s for m_ in mods for s in write_sites(m_)]
     for m in mods:
         shared = {}     # name -> (value node, has nested mutable, is mutable)
         scopes = [(None, m.tree.body)] + [
@@ -484,10 +485,21 @@ def rules(report, index):
                     continue
                 prefix = 'self.%s' % attr
                 hits = []
-                for s in sites:
-                    if s.cls != clsname or s.base is None:
+                for s in all_sites:
+                    if s.base is None:
                         continue
                     bt = ast.unparse(s.base)
+                    if s.cls != clsname or s.module != m.name:
+                        # another class reaching the attribute through an
+                        # instance it holds (self.lexer.<attr>.append ...)
+                        tail = '.%s' % attr
+                        if not (bt.endswith(tail) or (tail + '[') in bt or
+                                (tail + '.') in bt):
+                            continue
+                        if how == 'an alias' or (tail + '[') in bt or \
+                                (tail + '.') in bt:
+                            hits.append(s)
+                        continue
                     deep = bt.startswith(prefix + '[') or \
                         bt.startswith(prefix + '.')
                     if how == 'an alias' and (bt == prefix or deep):
